@@ -21,7 +21,7 @@ ASSUMPTIONS = [
 ]
 
 TOTALS = ["eager", "lazy", "reflect", "normalize", "sequential", "moment_matching"]
-ALPHABET = TOTALS + ["memoize", "memoize_shared", "Memoize_lazy", "Memoize_user", "user", "user2", "tape", "tape_shared", "montecarlo", "montecarlo_shared"]
+ALPHABET = TOTALS + ["memoize", "memoize_shared", "Memoize_lazy", "Memoize_user", "user", "user2", "tape", "tape_shared", "montecarlo", "montecarlo_shared", "argmax_approximate", "mean_approximate"]
 QUICK_ALPHABET = ["eager", "lazy", "normalize", "sequential", "memoize", "memoize_shared", "Memoize_lazy", "Memoize_user", "user", "tape", "tape_shared", "montecarlo_shared", "reflect"]
 WORKS = ["name_independence", "subs", "reduce", "optimizer", "reinterpret", "adjoint", "einsum", "inner_memoize", "sample", "lambda", "user_term", "mc_integrate", "affine", "compile", "sum_product", "gaussian"]
 EXC_TYPES = ["MemoryError", "RecursionError", "FloatingPointError", "NotImplementedError", "ValueError", "KeyboardInterrupt", "CancelledError"]
@@ -62,7 +62,7 @@ def label_forest(forest, kinds, r, works):
     def lab(children):
         kind = next(it)
         kids = [lab(c) for c in children]
-        return block(kind, _std_body(kids, r, works), mode=r.choice(["with", "with", "deco"]), catch=r.random() < 0.4)
+        return block(kind, _std_body(kids, r, works), mode=r.choice(["with", "with", "deco", "helper"]), catch=r.random() < 0.4)
 
     return [lab(t) for t in forest]
 
@@ -84,7 +84,7 @@ def random_tree(r, max_depth, max_blocks, alphabet):
                 body.append({"t": "probe"})
         if not body or body[-1].get("t") != "probe":
             body.append({"t": "probe"})
-        return block(r.choice(alphabet), body, mode=r.choice(["with", "with", "deco"]), catch=r.random() < 0.4)
+        return block(r.choice(alphabet), body, mode=r.choice(["with", "with", "deco", "helper"]), catch=r.random() < 0.4)
 
     return [mk(1) for _ in range(r.randint(1, 2))]
 
@@ -257,6 +257,8 @@ class _Env:
             if any(s is self.shared_tape for top in self.funsor.interpreter._STACK for s in getattr(top, "subinterpretations", ())):
                 return self.funsor.adjoint.AdjointTape()
             return self.shared_tape
+        if kind in ("argmax_approximate", "mean_approximate"):
+            return getattr(self.funsor.approximations, kind)  # library partial interpretations
         if kind == "montecarlo":
             return self.funsor.montecarlo.MonteCarlo()
         if kind == "montecarlo_shared":
@@ -408,6 +410,8 @@ class Run:
                     ok = ok and isinstance(first, env.funsor.adjoint.AdjointTape) and first._old_interpretation is prev_top
                 elif kind == "montecarlo":
                     ok = ok and isinstance(first, env.funsor.montecarlo.MonteCarlo)
+                elif kind in ("argmax_approximate", "mean_approximate"):
+                    ok = ok and first is getattr(env.funsor.approximations, kind)
         if not ok:
             raise Violation(
                 "layering",
@@ -665,6 +669,14 @@ class Run:
                 cm = env.make_cm(kind)
                 if node["mode"] == "deco":
                     cm(body)()
+                elif node["mode"] == "helper":
+                    import warnings
+
+                    with warnings.catch_warnings():
+                        warnings.simplefilter("ignore")
+                        helper_cm = env.funsor.interpreter.interpretation(cm)  # the deprecated spelling
+                    with helper_cm:
+                        body()
                 else:
                     with cm:
                         body()
@@ -765,7 +777,7 @@ def count_items(forest):
 def tree_sig(forest):
     def s(item):
         if "k" in item:
-            return "%s%s%s[%s]" % (item["k"], "@" if item["mode"] == "deco" else "", "!" if item.get("catch") else "", ",".join(s(b) for b in item["body"]))
+            return "%s%s%s[%s]" % (item["k"], {"deco": "@", "helper": "~"}.get(item["mode"], ""), "!" if item.get("catch") else "", ",".join(s(b) for b in item["body"]))
         return "p" if item["t"] == "probe" else "w:" + item["w"]
 
     return ";".join(s(i) for i in forest)
